@@ -54,7 +54,10 @@ def plan(tier, seed):
     cases += [dict(c, samp='quarter') for c in grid_cases][:: (1 if tier == 'thorough' else 3)]
     big = [dict(c, samp='bigpsi') for c in cases if c['samp'] == 'grid'][:: (1 if tier == 'thorough' else 3)]
     c64 = (cases if tier == 'thorough' else cases[::2]) + big
+    poles = [{'nside': n, 'kind': k, 'pole': p} for n in (1, 2, 4, 8) for k in ('I', 'IQU') for p in ('north', 'south')]
     return [
+        {'name': 'poles', 'target': 'checks.c16:run_poles', 'x64': False, 'cases': poles, 'chunk': 4},
+        {'name': 'poles_x64', 'target': 'checks.c16:run_poles', 'x64': True, 'cases': poles, 'chunk': 4},
         {'name': 'x32', 'target': TARGET, 'x64': False, 'cases': cases, 'chunk': 2},
         {'name': 'x64', 'target': TARGET, 'x64': True, 'cases': c64, 'chunk': 2},
         # 64-bit mode switched on after furax was imported (mc.pool.worker_init): same cases, same oracles
@@ -290,6 +293,48 @@ def run(phase, cases, ctx):
     return {'n': len(cases), 'violations': violations, 'counters': counters, 'nontrivial': nontrivial, 'samples': cases[:1]}
 
 
+def run_poles(phase, cases, ctx):
+    """An on-axis detector whose boresight points EXACTLY at a pole (colatitude 0 or pi, any longitude and position angle): the pole
+    is a corner shared by the four pixels of the polar ring, so any of these four is a correct answer - and no other pixel is."""
+    import healpy as hp
+    import jax
+    import jax.numpy as jnp
+    import numpy as np
+
+    from furax.detectors import DetectorArray
+    from furax.landscapes import HealpixLandscape, StokesPyTree
+    from furax.projections import create_projection_operator
+    from furax.samplings import Sampling
+    from mc import probe as P
+
+    D = jnp.float64 if bool(jax.config.jax_enable_x64) else jnp.float32
+    violations, counters, nontrivial = [], collections.Counter(), set()
+    for case in cases:
+        nside, kind = case['nside'], case['kind']
+        npix = 12 * nside ** 2
+        th0 = 0.0 if case['pole'] == 'north' else math.pi
+        near = th0 + (1e-3 if th0 == 0.0 else -1e-3)
+        allowed = {int(hp.ang2pix(nside, near, f)) for f in (0.3, 1.9, 3.5, 5.1)}
+        pts = [(th0, f, p) for f in (0.0, 1.0, -2.5, 3.3) for p in (0.0, 0.5, -1.2)]
+        th, ph, ps = (np.array([p[i] for p in pts]) for i in range(3))
+        try:
+            land = HealpixLandscape(nside, kind, D)
+            proj = P.lib('create_projection_operator', create_projection_operator, land, Sampling(jnp.asarray(th, D), jnp.asarray(ph, D), jnp.asarray(ps, D)), DetectorArray(np.array([[0.0]]), np.array([[0.0]]), 2.0))
+            cls = StokesPyTree.class_for(kind)
+            sky = cls(*[jnp.asarray(np.arange(npix) + 1.0 if c == 'I' else np.zeros(npix), D) for c in kind])
+            out = P.lib('projection.mv', proj.mv, sky)
+            got = np.rint(np.asarray(out.i, float).ravel()).astype(int) - 1
+        except P.LibError as e:
+            violations.append({'kind': 'library-raises', 'case': case, 'detail': f'{e}\n{e.tb}'})
+            continue
+        counters['pole_samples'] += len(got)
+        nontrivial.add(json.dumps(case))
+        bad = [(pts[i], int(g)) for i, g in enumerate(got) if int(g) not in allowed]
+        if bad or len(got) != len(pts):
+            violations.append({'kind': 'pole-maps-elsewhere', 'case': case, 'detail': f'boresight exactly at the {case["pole"]} pole, on-axis detector: (theta, phi, psi) -> pixel {bad[:4]}; the four pixels touching that pole are {sorted(allowed)}'})
+    return {'n': len(cases), 'violations': violations, 'counters': counters, 'nontrivial': nontrivial, 'samples': cases[:1]}
+
+
 def finalize(results, tier, seed):
     counters = collections.Counter()
     nontrivial = set()
@@ -302,7 +347,7 @@ def finalize(results, tier, seed):
         n += r['n']
     cov = {'evaluations': n, 'distinct_nontrivial': len(nontrivial), 'samples': samples, 'exhaustive': True,
            'projections_ok': counters['projections_ok'], 'acquisitions_ok': counters['acquisitions_ok'], 'hitcount_checks': counters['hitcount_checks'], 'built_under_jit_ok': counters['built_under_jit_ok'],
-           'samples_removed_near_border': counters['samples_removed_near_border'], 'pointings_per_grid': len(THETA) * len(PHI) * len(PSI),
+           'samples_removed_near_border': counters['samples_removed_near_border'], 'pole_samples': counters['pole_samples'], 'pointings_per_grid': len(THETA) * len(PHI) * len(PSI),
            'rule': 'one case = (nside, Stokes kind, detector layout, sampling) per 64-bit mode; every case compares >= 100 (detector, sample) '
                    'pairs per component with the independent pointing model'}
     return {'coverage': cov, 'violations': [], 'assumptions': ['healpy.vec2pix (ring) is the pixelisation reference', 'directions within 1e-4 rad of a pixel border are excluded']}
